@@ -192,7 +192,29 @@ def scenario_forced_overlap():
     return spec, [], {"njob": 3}
 
 
-SCENARIOS = {"forced_overlap": scenario_forced_overlap, "amend_running_producer": scenario_amend_running_producer,
+def scenario_skip_check_while_other_fails():
+    """T and X read the same static file.  X fails on a change of the file (which records the new
+    hash and makes the consumers pending) while T is being hash-checked for a skip: T validated
+    its inputs before the change and completes after X.  Build 1 prepares this: X fails there too,
+    the file is put back, so that in build 2 T is pending with a valid hash and X has to run."""
+    def make(k):
+        return {
+            "sources": {"src/d.txt": "d\n", "src/e.txt": "e\n"}, "env": {},
+            "steps": {
+                "X": {"kind": "prog", "inp": ["src/d.txt"], "out": ["out/x.txt"], "gates_before": 1 + k},
+                "T": {"kind": "do", "salt": "", "inp": ["src/d.txt", "src/e.txt"], "out": ["out/t.txt"]},
+                "U": {"kind": "do", "salt": "", "inp": ["out/t.txt"], "out": ["out/u.txt"]},
+            },
+            "plans": {".": [["static", ["src/d.txt", "src/e.txt", "progs/X.json"]], ["step", "X"], ["step", "T"], ["step", "U"]]},
+            "order": ["X", "T", "U"],
+        }
+    return make(0), [{"spec": make(1), "edits": ["program of X edited"]},
+                     {"spec": make(2), "edits": ["program of X edited again"]}], \
+        {"njob": 3, "keep_going": True, "thread_delay": {"p": 1.0, "max": 0.04, "seed": 7}}
+
+
+SCENARIOS = {"forced_overlap": scenario_forced_overlap,
+             "skip_check_while_other_fails": scenario_skip_check_while_other_fails, "amend_running_producer": scenario_amend_running_producer,
              "static_changes_while_running": scenario_static_changes_while_running}
 
 
@@ -451,6 +473,10 @@ def run_case(case):
                     if case.get("scenario") == "forced_overlap":
                         mode = "free"
                     prob = rng.choice([0, 0, 0.15, 0.3])
+                    if case.get("scenario") == "skip_check_while_other_fails":
+                        mode = "free"
+                        prob = 1.0 if k else 0
+                        cfg = {**cfg, "thread_delay": {"p": 1.0, "max": 0.04, "seed": rng.randrange(1 << 30)}}
                     one_build(cfg, mode, prob, dict(cur.get("env", {})), f"{sub} rep {rep} build {k} ({mode})")
                     # the gremlin changed a user file: the user-file map no longer describes the disk
                     files = {p: v for p, v in files.items()}
